@@ -98,7 +98,7 @@ def run(R, tier, seed, driver_ok):
                         R.violation('pairs-score', f'{label}: score {sc!r} != ROC-AUC {float(auc)!r}', case)
                     for i in range(ntup):
                         R.case(('c04', label, src, T[i].tobytes().hex(), f2b(thr)), not np.all(T[i] == T[i, 0]),
-                               sample={'est': label, 'src': src, 'thr': thr, 'distance': dist[i], 'predict': int(pred[i])},
+                               sample={'est': label, 'src': src, 'thr': thr, 'distance': dist[i], 'predict': (int(pred[i]) if np.isfinite(pred[i]) else None)},
                                branch=f'pairs:{src}:{"tie" if dist[i] == thr else "lt" if dist[i] < thr else "gt"}')
                     add(f'predict_pair {ntup} {f2b(thr)} {bits(dist)}', 'ints', (np.asarray(pred).astype(int), 'predict_pair', case))
                     add(f'auc {ntup} {bits(dec)} {" ".join(map(str, yv))}', 'rat', (sc, 1e-12, 'auc', case))
@@ -123,6 +123,8 @@ def run(R, tier, seed, driver_ok):
                 dec = est.decision_function(T); pred = np.asarray(est.predict(T)); sc = est.score(T)
                 case = {'est': label, 'tuples': T, 'L': est.components_}
                 want_dec = (-dab) - (-dac)
+                if not (np.all(np.isfinite(dec)) and np.all(np.isfinite(pred))):
+                    R.violation('triplet-nonfinite', f'{label}: decision_function / predict returned a non-finite value (tuples with coinciding members)', case)
                 if not np.array_equal(dec, want_dec):
                     R.violation('triplet-decision', f'{label}: decision_function != d(a,c) - d(a,b)', case)
                 want = np.where(dab < dac, 1, -1)
@@ -136,11 +138,11 @@ def run(R, tier, seed, driver_ok):
                     R.violation('triplet-swap', f'{label}: swapping b,c does not negate the decision function', case)
                 for i in range(ntup):
                     R.case(('c04', label, T[i].tobytes().hex()), not np.all(T[i] == T[i, 0]),
-                           sample={'est': label, 'dab': dab[i], 'dac': dac[i], 'predict': int(pred[i])},
+                           sample={'est': label, 'dab': dab[i], 'dac': dac[i], 'predict': (int(pred[i]) if np.isfinite(pred[i]) else None)},
                            branch=f'triplet:{"tie" if dab[i] == dac[i] else "lt" if dab[i] < dac[i] else "gt"}')
                 add(f'decision_trip {ntup} {bits(dab)} {bits(dac)}', 'floats', (dec, 0.0, 'decision_trip', case))
-                add(f'predict_trip {ntup} {bits(dab)} {bits(dac)}', 'ints', (pred.astype(int), 'predict_trip', case))
-                add(f'score_frac {ntup} {" ".join(map(str, pred.astype(int)))}', 'rat', (sc, 1e-15, 'score_frac', case))
+                add(f'predict_trip {ntup} {bits(dab)} {bits(dac)}', 'ints', (np.nan_to_num(pred, nan=-99).astype(int), 'predict_trip', case))
+                add(f'score_frac {ntup} {" ".join(map(str, np.nan_to_num(pred, nan=-99).astype(int)))}', 'rat', (sc, 1e-15, 'score_frac', case))
                 if pre is not None:
                     idx = rng.randint(0, len(X), size=(ntup, 3))
                     if not np.array_equal(est.decision_function(idx), est.decision_function(X[idx])):
@@ -149,6 +151,8 @@ def run(R, tier, seed, driver_ok):
                 dab = est.pair_distance(T[:, [0, 1]]); dcd = est.pair_distance(T[:, [2, 3]])
                 dec = est.decision_function(T); pred = np.asarray(est.predict(T)); sc = est.score(T)
                 case = {'est': label, 'tuples': T, 'L': est.components_}
+                if not (np.all(np.isfinite(dec)) and np.all(np.isfinite(pred))):
+                    R.violation('quad-nonfinite', f'{label}: decision_function / predict returned a non-finite value (tuples with coinciding members)', case)
                 if not np.array_equal(dec, (-dab) - (-dcd)):
                     R.violation('quad-decision', f'{label}: decision_function != d(c,d) - d(a,b)', case)
                 want = np.where(dab < dcd, 1, np.where(dcd < dab, -1, 0))
@@ -159,10 +163,10 @@ def run(R, tier, seed, driver_ok):
                     R.violation('quad-swap', f'{label}: swapping the pairs does not negate the decision function', case)
                 for i in range(ntup):
                     R.case(('c04', label, T[i].tobytes().hex()), not np.all(T[i] == T[i, 0]),
-                           sample={'est': label, 'dab': dab[i], 'dcd': dcd[i], 'predict': int(pred[i])},
+                           sample={'est': label, 'dab': dab[i], 'dcd': dcd[i], 'predict': (int(pred[i]) if np.isfinite(pred[i]) else None)},
                            branch=f'quad:{"tie" if dab[i] == dcd[i] else "lt" if dab[i] < dcd[i] else "gt"}')
                 add(f'decision_quad {ntup} {bits(dab)} {bits(dcd)}', 'floats', (dec, 0.0, 'decision_quad', case))
-                add(f'predict_quad {ntup} {bits(dab)} {bits(dcd)}', 'ints', (pred.astype(int), 'predict_quad', case))
+                add(f'predict_quad {ntup} {bits(dab)} {bits(dcd)}', 'ints', (np.nan_to_num(pred, nan=-99).astype(int), 'predict_quad', case))
                 if pre is not None:
                     idx = rng.randint(0, len(X), size=(ntup, 4))
                     if not np.array_equal(est.decision_function(idx), est.decision_function(X[idx])):
